@@ -92,6 +92,14 @@ def handle (j : Json) : Except String Json := do
       pure (Json.mkObj [("out", mj out), ("arr", mj arr), ("second", second)])
     | .error (.keyError w) => pure (Json.mkObj [("err", "KeyError"), ("where", w)])
     | .error (.valueError w) => pure (Json.mkObj [("err", "ValueError"), ("where", w)])
+  | "sig_roundtrip" =>
+    let v ← Codec.vOf (← j.getObjVal? "value")
+    let strict ← j.getObjValAs? Bool "strict"
+    let stored := Ser.json (Ser.toSig v)
+    let back := Ser.fromSig strict stored
+    pure (Json.mkObj [("stored", Codec.svJ stored), ("back", Codec.vJ back),
+      ("wf", toJson (Ser.WF v)), ("norm", Codec.vJ (Ser.norm v)),
+      ("restored", Codec.svJ (Ser.json (Ser.toSig back)))])
   | "schema" =>
     let sig ← Codec.sigOf (← j.getObjVal? "sig")
     let tj := fun (t : Sql.Table) => Json.mkObj [
